@@ -72,6 +72,10 @@ def rand_chunking(rng, n):
     return sorted({rng.randint(0, n) for _ in range(rng.randint(1, max(1, n // 4)))}), style
 
 
+# bytes a frame of each type needs for its header and fixed fields: anything shorter cannot be decoded
+FIXED = {2: 14, 3: 14, 4: 6, 5: 6, 6: 10, 7: 10, 8: 10, 9: 6, 10: 6, 11: 10, 14: 14}
+
+
 class C04(Prop):
     id = 'C04'
     lean_modules = ['RSocketModel.Props.C04']
@@ -105,8 +109,16 @@ class C04(Prop):
             elif kind in ('real', 'tcp'):
                 specs = [FR.gen_spec(rng) for _ in range(rng.randint(1, 6))]
                 junk = rng.choice(['', '', 'ee', '0000000000ff', '00000001' + 'ff' * 4])  # undecodable but delimited bodies
+                c_undec = junk in ('ee', '0000000000ff')      # shorter than a header / unknown frame type
+                if rng.random() < 0.3:
+                    # a known frame type cut short, with or without the IGNORE flag: dropped silently / an invalid-frame marker, never a frame
+                    b = bytearray(FR.build(FR.gen_spec(rng)).serialize())
+                    if rng.random() < 0.6:
+                        b[4] |= 0x02
+                    junk = bytes(b[:rng.randint(6, max(6, len(b) - 1))]).hex()
+                    c_undec = len(junk) // 2 < FIXED.get(b[4] >> 2, 0)
                 pos = rng.randint(0, len(specs))
-                c = {'kind': kind, 'specs': specs, 'junk': junk, 'junk_pos': pos}
+                c = {'kind': kind, 'specs': specs, 'junk': junk, 'junk_pos': pos, 'junk_undecodable': c_undec}
                 if kind == 'real':
                     c['cuts'], c['style'] = None, None
                     c['seed'] = rng.getrandbits(32)
@@ -164,6 +176,13 @@ class C04(Prop):
                 fp.parse_or_ignore = orig
             return {'items': items[:8], 'residual': bytes(p._buffer).hex(), 'terminated': ok, 'second': items2}
         bodies, data = self._wire(case)
+        valid_only = []
+        for s in case['specs']:
+            try:
+                fr = F.parse_or_ignore(FR.build(s).serialize())
+                valid_only += [FR.dump(fr)] if fr is not None else []
+            except Exception:
+                valid_only.append('INVALID')
         expected = []
         for b in bodies:
             try:
@@ -184,7 +203,7 @@ class C04(Prop):
                     if not ok:
                         break
                 runs[style + ':' + ','.join(map(str, pts[:40]))] = {'items': items, 'residual': bytes(p._buffer).hex(), 'terminated': ok}
-            return {'expected': expected, 'runs': runs, 'nbytes': len(data)}
+            return {'expected': expected, 'valid_only': valid_only, 'runs': runs, 'nbytes': len(data)}
         # tcp
         from rsocket.transports.tcp import TransportTCP
 
@@ -210,7 +229,7 @@ class C04(Prop):
                     items.append(FR.dump(fr))
             return items, False
         items, ok = lp.run_until_complete(go())
-        return {'expected': expected, 'runs': {'read=%d' % case['read']: {'items': items, 'residual': '', 'terminated': ok}}, 'nbytes': len(data)}
+        return {'expected': expected, 'valid_only': valid_only, 'runs': {'read=%d' % case['read']: {'items': items, 'residual': '', 'terminated': ok}}, 'nbytes': len(data)}
 
     # -- model ---------------------------------------------------------------------------
     def model_lines(self, case, obs):
@@ -218,10 +237,22 @@ class C04(Prop):
             return ['drain - ' + ' '.join(c or '-' for c in obs['chunks'])]
         if case['kind'] == 'msg' and not case['real']:
             return ['msg ' + (case['msg'] or '-')]
+        if case['kind'] in ('real', 'tcp'):
+            # the per-frame decoder of the composition C04 ∘ C02: the codec model decides what each delimited body is
+            return ['dec ' + (b.hex() or '-') for b in self._wire(case)[0]]
         return []
 
     def compare(self, case, obs, answers):
         if not answers:
+            return None
+        if case['kind'] in ('real', 'tcp'):
+            if any(a.startswith('OUT-OF-DOMAIN') or a == 'OOD' for a in answers):
+                return None
+            want = [a for a in answers if a != 'IGNORED']
+            for name, run in obs['runs'].items():
+                if run['terminated'] and run['items'] != want:
+                    i = next((k for k, (x, y) in enumerate(zip(run['items'], want)) if x != y), min(len(run['items']), len(want)))
+                    return 'frames decoded (%s): impl %s / codec model %s (first difference at %d)' % (name, run['items'][i:i + 2], want[i:i + 2], i)
             return None
         if not obs['terminated']:
             impl = 'nonterminating'
@@ -273,6 +304,14 @@ class C04(Prop):
                                       next((i for i, (a, b) in enumerate(zip(run['items'], obs['expected'])) if a != b), min(len(run['items']), len(obs['expected']))))})
                 elif run['residual']:
                     fails.append({'signature': 'residual-buffer-wrong', 'what': 'bytes left in buffer after complete frames: %s' % run['residual']})
+                if run['terminated'] and case.get('junk') and case.get('junk_undecodable'):
+                    # the delimited body that cannot be a frame yields no frame (at most the invalid-frame marker) and disturbs nothing
+                    got = [x for x in run['items'] if x != 'INVALID']
+                    want = [x for x in obs['valid_only'] if x != 'INVALID']
+                    if got != want:
+                        fails.append({'signature': 'undecodable-frame-yields-a-frame',
+                                      'what': 'undecodable body %s (position %d, chunking %s): frames %s, expected %s' % (
+                                          case['junk'], case['junk_pos'], name, [g[:40] for g in got][:5], [w[:40] for w in want][:5])})
         return fails
 
     def nontrivial(self, case, obs):
